@@ -5,7 +5,7 @@ from collections import deque
 from typing import *
 
 from hippolyzer.lib.base.message.circuit import Circuit
-from hippolyzer.lib.base.message.message import Message
+from hippolyzer.lib.base.message.message import Block, Message
 from hippolyzer.lib.base.message.msgtypes import PacketFlags
 from hippolyzer.lib.base.network.transport import Direction
 
@@ -63,11 +63,17 @@ class ProxiedCircuit(Circuit):
             )
 
             if message.name == "PacketAck":
-                if not self._rewrite_packet_ack(message, reverse_injections) and not message.acks:
-                    logging.debug(f"Dropping {message.direction} ack for injected packets!")
-                    # Let caller know this shouldn't be sent at all, it's strictly ACKs for
-                    # injected packets.
-                    return False
+                if not self._rewrite_packet_ack(message, reverse_injections):
+                    if not message.acks:
+                        logging.debug(f"Dropping {message.direction} ack for injected packets!")
+                        # Let caller know this shouldn't be sent at all, it's strictly ACKs for
+                        # injected packets.
+                        return False
+                    # The body only ACKed injected packets, but there are still appended ACKs
+                    # that have to get through. Move those into the body so the ACKs for the
+                    # injected packets don't leak and we don't send an empty PacketAck.
+                    message["Packets"] = [Block("Packets", ID=x) for x in message.acks]
+                    message.acks = ()
             elif message.name == "StartPingCheck":
                 self._rewrite_start_ping_check(message, fwd_injections)
 
